@@ -231,8 +231,10 @@ Definition gstmt_needed (ve : venv) (s : stmt) : list (rdesc * rdesc) :=
 Record sprogram := { sp_events : list event; sp_needed : list (rdesc * rdesc); sp_venv : venv }.
 Definition gen (p : program) : sprogram :=
   let '(evs, ve) := gen_vars [] (pvars p) in
-  {| sp_events := evs ++ flat_map (gen_stmt ve) (pstmts p);
-     sp_needed := flat_map (gstmt_needed ve) (pstmts p);
+  let nd := flat_map (gstmt_needed ve) (pstmts p) in
+  (* the needed-balance resources were all allocated by the statements: re-allocating them changes nothing *)
+  {| sp_events := evs ++ flat_map (gen_stmt ve) (pstmts p) ++ flat_map (fun an => [EAlloc (fst an); EAlloc (snd an)]) nd;
+     sp_needed := nd;
      sp_venv := ve |}.
 
 (* ------------------------------------------------------------------ phase 2: assign *)
